@@ -175,7 +175,7 @@ theorem certificates_check : checkAll effectUnits effectCerts = true := by decid
 def scalarParams : List (String × String) :=
   [("index_coords", "origin"), ("Distributions", "origin"), ("rbasex_transform", "origin"), ("harmonics", "origin"),
    ("rharmonics", "origin"), ("Ibeta", "origin"), ("rIbeta", "origin"), ("rcos", "origin"),
-   ("Polynomial", "r_min"), ("Polynomial", "r_0"), ("Polynomial", "s"), ("toPES", "energy_cal_factor")]
+   ("Polynomial", "r_min"), ("Polynomial", "r_0"), ("Polynomial", "s")]
 
 theorem only_scalars_written :
     ((effectUnits.zip effectCerts).all fun uc =>
